@@ -70,31 +70,52 @@ ModeBytesS(p) == (IF p.mode \in PskModes THEN [psk |-> p.psk, psk_id |-> p.pskId
 ModeBytesR(p) == (IF p.mode \in PskModes THEN [psk |-> p.psk, psk_id |-> p.pskId] ELSE EmptyF)
                  @@ (IF p.mode \in AuthModes THEN [pk_s |-> p.pkS] ELSE EmptyF)
 
+\* Keys and encapsulated keys reach the API through their deserialisers: a wrong length is refused there
+\* with IncorrectInputLength(expected, given) before any setup runs (first mismatch in argument order).
+LenErr(want, bs) == [kind |-> "err", err |-> E_LEN, payload |-> <<want, BLen(bs)>>]
+NoErr == [kind |-> "ok", err |-> "", payload |-> <<>>]
+DeserS(p) ==
+    LET kem == p.suite[1] IN
+    IF BLen(p.pkR) # Npk(kem) THEN LenErr(Npk(kem), p.pkR)
+    ELSE IF p.mode \in AuthModes /\ BLen(p.skS) # Nsk(kem) THEN LenErr(Nsk(kem), p.skS)
+    ELSE IF p.mode \in AuthModes /\ BLen(p.pkS) # Npk(kem) THEN LenErr(Npk(kem), p.pkS)
+    ELSE NoErr
+DeserR(p) ==
+    LET kem == p.suite[1] IN
+    IF BLen(p.skR) # Nsk(kem) THEN LenErr(Nsk(kem), p.skR)
+    ELSE IF BLen(p.enc) # Nenc(kem) THEN LenErr(Nenc(kem), p.enc)
+    ELSE IF p.mode \in AuthModes /\ BLen(p.pkS) # Npk(kem) THEN LenErr(Npk(kem), p.pkS)
+    ELSE NoErr
+
 SetupSStep(p) ==
     LET kem == p.suite[1]
         idS == IF p.mode \in AuthModes THEN Id(p.skS, p.pkS) ELSE NoId
-    IN  IF p.mode \in PskModes /\ ~PskBundleOk(p.psk, p.pskId)
-        THEN [kind |-> "err", err |-> "InvalidPskBundle", enc |-> <<>>, km |-> <<>>]
+        de  == DeserS(p)
+    IN  IF de.kind = "err" THEN [kind |-> "err", err |-> de.err, payload |-> de.payload, enc |-> <<>>, km |-> <<>>]
+        ELSE IF p.mode \in PskModes /\ ~PskBundleOk(p.psk, p.pskId)
+        THEN [kind |-> "err", err |-> "InvalidPskBundle", payload |-> <<>>, enc |-> <<>>, km |-> <<>>]
         ELSE LET e == Encap(kem, p.pkR, idS, p.rng)
-             IN  IF ~e.ok THEN [kind |-> "err", err |-> E_ENC, enc |-> <<>>, km |-> <<>>]
-                 ELSE [kind |-> "ok", err |-> "", enc |-> e.enc,
+             IN  IF ~e.ok THEN [kind |-> "err", err |-> E_ENC, payload |-> <<>>, enc |-> <<>>, km |-> <<>>]
+                 ELSE [kind |-> "ok", err |-> "", payload |-> <<>>, enc |-> e.enc,
                        km |-> KeySchedule(p.suite, p.mode, e.ss, p.info, p.psk, p.pskId)]
 
 SetupRStep(p) ==
     LET kem == p.suite[1]
         pkS == IF p.mode \in AuthModes THEN SomePk(p.pkS) ELSE NoPk
-    IN  IF p.mode \in PskModes /\ ~PskBundleOk(p.psk, p.pskId)
-        THEN [kind |-> "err", err |-> "InvalidPskBundle", km |-> <<>>]
+        de  == DeserR(p)
+    IN  IF de.kind = "err" THEN [kind |-> "err", err |-> de.err, payload |-> de.payload, km |-> <<>>]
+        ELSE IF p.mode \in PskModes /\ ~PskBundleOk(p.psk, p.pskId)
+        THEN [kind |-> "err", err |-> "InvalidPskBundle", payload |-> <<>>, km |-> <<>>]
         ELSE LET d == Decap(kem, p.skR, pkS, p.enc)
-             IN  IF ~d.ok THEN [kind |-> "err", err |-> E_DEC, km |-> <<>>]
-                 ELSE [kind |-> "ok", err |-> "",
+             IN  IF ~d.ok THEN [kind |-> "err", err |-> E_DEC, payload |-> <<>>, km |-> <<>>]
+                 ELSE [kind |-> "ok", err |-> "", payload |-> <<>>,
                        km |-> KeySchedule(p.suite, p.mode, d.ss, p.info, p.psk, p.pskId)]
 
 SetupSRec(c, p, r) ==
     [op |-> "setup_s", c |-> c, form |-> "",
      plain |-> [suite |-> p.suite, mode |-> p.mode],
      bytes |-> [pk_r |-> p.pkR, info |-> p.info, rng |-> p.rng] @@ ModeBytesS(p),
-     kind |-> r.kind, err |-> r.err,
+     kind |-> r.kind, err |-> r.err, payload |-> r.payload,
      out |-> [enc |-> r.enc], outn |-> [drawn |-> Nsk(p.suite[1])],
      pre |-> NoState,
      post |-> IF r.kind = "ok" THEN [seq |-> Seq0, ovf |-> FALSE] ELSE NoState,
@@ -104,7 +125,7 @@ SetupRRec(c, p, r) ==
     [op |-> "setup_r", c |-> c, form |-> "",
      plain |-> [suite |-> p.suite, mode |-> p.mode],
      bytes |-> [sk_r |-> p.skR, enc |-> p.enc, info |-> p.info] @@ ModeBytesR(p),
-     kind |-> r.kind, err |-> r.err, out |-> EmptyF, outn |-> EmptyF,
+     kind |-> r.kind, err |-> r.err, payload |-> r.payload, out |-> EmptyF, outn |-> EmptyF,
      pre |-> NoState,
      post |-> IF r.kind = "ok" THEN [seq |-> Seq0, ovf |-> FALSE] ELSE NoState,
      untouched |-> FALSE]
@@ -243,6 +264,10 @@ DeliverFrom(ms, d) ==
               [] d.k = "swapct"  -> IF d.j \in 1..Len(ms) /\ ms[d.j].ct # m.ct /\ BLen(ms[d.j].ct) = BLen(m.ct)
                                     THEN Dlv(ms[d.j].ct, m.tag, m.aad) ELSE NoDelivery
               [] d.k = "emptyaad" -> IF m.aad # <<>> THEN Dlv(m.ct, m.tag, <<>>) ELSE NoDelivery
+              \* bytes after the tag (detached callers hand the tag over as its own byte string)
+              [] d.k = "extendtag" -> Dlv(m.ct, Cat(m.tag, Lit(Zeros(d.n))), m.aad)
+              [] d.k = "tagtwice" -> Dlv(m.ct, Cat(m.tag, m.tag), m.aad)
+              [] d.k = "truncaad" -> IF d.n \in 1..BLen(m.aad) THEN Dlv(m.ct, m.tag, Take(m.aad, BLen(m.aad) - d.n)) ELSE NoDelivery
               [] d.k = "extendaad" -> Dlv(m.ct, m.tag, Cat(m.aad, Lit(Zeros(d.n))))
               [] OTHER -> NoDelivery
 
@@ -261,16 +286,18 @@ IsVerbatim(d) == d.k = "msg"
 (* (AeadTag::from_bytes); deliveries that do not have one are only         *)
 (* offered to the allocating form, as one byte string.                     *)
 (***************************************************************************)
+\* the detached tag goes through AeadTag::from_bytes first: a tag of another length never reaches the context
 OpenResult(st, dl, form) ==
     IF form = "alloc" THEN OpenAllocStepWith(st, Cat(dl.body, dl.tag), dl.aad, OvfFirstInOpen)
-    ELSE OpenStep(st, dl.body, dl.tag, dl.aad)
+    ELSE IF BLen(dl.tag) # Nt(AeadOf(st))
+         THEN [kind |-> "err", err |-> E_LEN, pt |-> <<>>, touched |-> FALSE, st |-> st]
+         ELSE OpenStep(st, dl.body, dl.tag, dl.aad)
 
 OpenBytes(c, dl, d, form) ==
     /\ c \in Receivers
     /\ Count("open") < MaxOpens
     /\ LET dummy == 0
        IN  /\ dl.ok
-           /\ form = "detached" => BLen(dl.tag) = Nt(AeadOf(ctx[c]))
            /\ Bump("open")
            /\ LET r == OpenResult(ctx[c], dl, form)
                   rec == [op |-> "open", c |-> c, form |-> form,
@@ -326,7 +353,10 @@ ShotSealStep(p, pt, aad, form) ==
 
 ShotOpenStep(p, dl, form) ==
     LET s == SetupRStep(p)
-    IN  IF s.kind # "ok" THEN [kind |-> s.kind, err |-> s.err, pt |-> <<>>]
+    IN  \* the detached tag is an AeadTag: its deserialiser has run before the call is made
+        IF form = "detached" /\ BLen(dl.tag) # Nt(p.suite[3]) /\ DeserR(p).kind = "ok"
+        THEN [kind |-> "err", err |-> E_LEN, pt |-> <<>>]
+        ELSE IF s.kind # "ok" THEN [kind |-> s.kind, err |-> s.err, pt |-> <<>>]
         ELSE LET r == OpenResult(NewCtx("R", p.suite, s.km, p), dl, form)
              IN  [kind |-> r.kind, err |-> r.err, pt |-> r.pt]
 
@@ -351,7 +381,6 @@ SingleShotSeal(m, form) ==
 SingleShotOpenBytes(p, dl, d, form) ==
     /\ Count("shot") < MaxShots
     /\ dl.ok
-    /\ form = "detached" => BLen(dl.tag) = Nt(p.suite[3])
     /\ Bump("shot")
     /\ LET r == ShotOpenStep(p, dl, form)
        IN Record([op |-> "single_shot_open", c |-> "", form |-> form,
